@@ -1197,7 +1197,7 @@ func getExternalLintV1Beta1V1ForLintConfig(lintConfig LintConfig, moduleDirPath 
 	// All already sorted.
 	externalLint.Use = lintConfig.UseIDsAndCategories()
 	externalLint.Except = lintConfig.ExceptIDsAndCategories()
-	externalLint.Ignore = slicesext.Map(lintConfig.IgnorePaths(), joinDirPath)
+	externalLint.Ignore = getExternalIgnoreForCheckConfig(lintConfig, moduleDirPath)
 	externalLint.IgnoreOnly = make(map[string][]string, len(lintConfig.IgnoreIDOrCategoryToPaths()))
 	for idOrCategory, importPaths := range lintConfig.IgnoreIDOrCategoryToPaths() {
 		externalLint.IgnoreOnly[idOrCategory] = slicesext.Map(importPaths, joinDirPath)
@@ -1220,7 +1220,7 @@ func getExternalLintV2ForLintConfig(lintConfig LintConfig, moduleDirPath string)
 	// All already sorted.
 	externalLint.Use = lintConfig.UseIDsAndCategories()
 	externalLint.Except = lintConfig.ExceptIDsAndCategories()
-	externalLint.Ignore = slicesext.Map(lintConfig.IgnorePaths(), joinDirPath)
+	externalLint.Ignore = getExternalIgnoreForCheckConfig(lintConfig, moduleDirPath)
 	externalLint.IgnoreOnly = make(map[string][]string, len(lintConfig.IgnoreIDOrCategoryToPaths()))
 	for idOrCategory, importPaths := range lintConfig.IgnoreIDOrCategoryToPaths() {
 		externalLint.IgnoreOnly[idOrCategory] = slicesext.Map(importPaths, joinDirPath)
@@ -1243,7 +1243,7 @@ func getExternalBreakingForBreakingConfig(breakingConfig BreakingConfig, moduleD
 	// All already sorted.
 	externalBreaking.Use = breakingConfig.UseIDsAndCategories()
 	externalBreaking.Except = breakingConfig.ExceptIDsAndCategories()
-	externalBreaking.Ignore = slicesext.Map(breakingConfig.IgnorePaths(), joinDirPath)
+	externalBreaking.Ignore = getExternalIgnoreForCheckConfig(breakingConfig, moduleDirPath)
 	externalBreaking.IgnoreOnly = make(map[string][]string, len(breakingConfig.IgnoreIDOrCategoryToPaths()))
 	for idOrCategory, importPaths := range breakingConfig.IgnoreIDOrCategoryToPaths() {
 		externalBreaking.IgnoreOnly[idOrCategory] = slicesext.Map(importPaths, joinDirPath)
@@ -1251,6 +1251,24 @@ func getExternalBreakingForBreakingConfig(breakingConfig BreakingConfig, moduleD
 	externalBreaking.IgnoreUnstablePackages = breakingConfig.IgnoreUnstablePackages()
 	externalBreaking.DisableBuiltin = breakingConfig.DisableBuiltin()
 	return externalBreaking
+}
+
+// getExternalIgnoreForCheckConfig returns the value of the ignore key for the CheckConfig.
+//
+// A disabled CheckConfig is the result of an ignore path that is equal to the module
+// directory, see isLintOrBreakingDisabledBasedOnIgnores. A disabled CheckConfig has no
+// ignore paths of its own, so the module directory is what is written back. Otherwise
+// the checks would be enabled again the next time the file is read.
+func getExternalIgnoreForCheckConfig(checkConfig CheckConfig, moduleDirPath string) []string {
+	if checkConfig.Disabled() {
+		return []string{moduleDirPath}
+	}
+	return slicesext.Map(
+		checkConfig.IgnorePaths(),
+		func(importPath string) string {
+			return normalpath.Join(moduleDirPath, importPath)
+		},
+	)
 }
 
 // externalBufYAMLFileV1Beta1V1 represents the v1 or v1beta1 buf.yaml file, which have
